@@ -1734,7 +1734,7 @@ SCENARIOS = {'d7': d7, 'd8': d8, 'd17': d17, 'd16': d16, 'd1': d1, 'd20': d20,
              'restart_double_vote': restart_double_vote, 'd18': d18, 'd10': d10, 'd19': d19, 'd6': d6,
              'ser_fork': ser_fork, 'ser_custom': ser_custom, 'fig8': fig8, 'stale_match_reelected': stale_match_reelected,
              'stale_cursor': stale_cursor, 'compact_during_install': compact_during_install,
-             'member_rollback': member_rollback, 'backoff_burst': backoff_burst, 'snapshot_members': snapshot_members, 'old_snapshot_again': old_snapshot_again, 'duplicate_add_then_truncation': duplicate_add_then_truncation, 'dump_kill_points': dump_kill_points, 'install_drops_acked': install_drops_acked,
+             'member_rollback': member_rollback, 'backoff_burst': backoff_burst, 'snapshot_members': snapshot_members, 'old_snapshot_again': old_snapshot_again, 'refused_snapshot_then_kill': refused_snapshot_then_kill, 'duplicate_add_then_truncation': duplicate_add_then_truncation, 'dump_kill_points': dump_kill_points, 'install_drops_acked': install_drops_acked,
              'snapshot_at_membership_entry': snapshot_at_membership_entry,
              'restart_empty_follower': restart_empty_follower,
              'stale_tail_behind_snapshot': stale_tail_behind_snapshot,
@@ -1754,7 +1754,6 @@ SCENARIOS = {'d7': d7, 'd8': d8, 'd17': d17, 'd16': d16, 'd1': d1, 'd20': d20,
              'vote_regrant_after_flap': vote_regrant_after_flap,
              'raising_then_snapshot': raising_then_snapshot,
              'big_entry_index_reused': big_entry_index_reused}
-PENDING = {'refused_snapshot_then_kill': refused_snapshot_then_kill}    # joins SCENARIOS with the repair FX-C06-2
 NAMES = sorted(SCENARIOS)
 
 
